@@ -63,6 +63,12 @@ StepCryptRN(d, oc, sz) ==
   ELSE LET x == DoCrypt(d0, oc) IN
        [d |-> x.d, err |-> x.err, ret |-> IF IsTok(x.d.out) THEN RNull ELSE ROut]
 
+\* A deliberately WRONG variant, used only by the non-vacuity configuration XCryptMC_mutant.cfg: the
+\* failure token is written after the size check instead of first.  The invariants must reject it.
+StepCryptRN_late(d, oc, sz) ==
+  IF ~SizeOK(sz) THEN [d |-> d, err |-> ERANGE, ret |-> RNull]
+  ELSE StepCryptRN(d, oc, sz)
+
 \* crypt_r (crypt.c:241-252), ENABLE_FAILURE_TOKENS=1: always returns the output field
 StepCryptR(d, oc, failureTokens) ==
   LET d0 == [d EXCEPT !.out = TokenFor(oc.star1, "sizeof")]
